@@ -196,7 +196,8 @@ RULES = {
            "as scripted, ListPeers = interested neighbours, else inconclusive), 1-3 publishers with bursts of 1-2 messages (small, or "
            "1.5 KB to engage IDONTWANT), N+4 virtual seconds, then every subscription of every node is drained: each message of the "
            "round exactly once, nothing else. Non-trivial: a subscriber two or more hops from a publisher, or a churn round. "
-           "Distinct = case JSON. Churn also flaps an existing link 1-7 times in a row.",
+           "Distinct = case JSON. Churn also flaps an existing link 1-7 times in a row; a third of the rounds start with 11-16 messages "
+           "of one publisher one second apart (sustained one-way gossip) before the measured publishes.",
     "C05": "(NET) 2-4 real nodes (gossipsub / floodsub / randomsub mixes, outbound queue size 1, 2 or 32) plus a skeleton observer on "
            "full libp2p hosts over simnet with generated link latencies; histories of up to 24 operations - Subscribe, "
            "Subscription.Cancel, Relay, relay-cancel (also twice), Topic.Close, fanout-only joins, connect, whole-peer disconnect, reset "
